@@ -368,7 +368,10 @@ def run(ck, prog, ctx):
                     lab = "?"
                 seq.append((bi, lab))
         order = [l for _, l in sorted(seq, key=lambda x: len([y for y, _ in seq if y != x[0] and wb.dominates(y, x[0])]))]
-        ck.ob("ROLE", "binary-edge/writer", order == ["count", "term", "parent"], "parents_as_byte writes %s (expected count, term, parent...)" % order, where=wb.where())
+        if not order:
+            ck.undecided("ROLE", "binary-edge/writer", "parents_as_byte does not append to a byte vector step by step (iterator chain?): the order of count, term and parents is decided by C07's LAYOUT rule only", where=wb.where())
+        else:
+            ck.ob("ROLE", "binary-edge/writer", order == ["count", "term", "parent"], "parents_as_byte writes %s (expected count, term, parent...)" % order, where=wb.where())
         loops = rb.natural_loops()
         for bi, t in rb.calls():
             if (t.callee.res or "").endswith("::add_parent_unchecked"):
